@@ -395,6 +395,12 @@ where
             .store()
             .subslice_utf8_offset(self.text())
             .expect("subslice should succeed");
+        if abscursor > self.textlen() {
+            return Err(StamError::CursorOutOfBounds(
+                Cursor::BeginAligned(abscursor),
+                "utf8byte(): cursor is beyond the end of the text selection",
+            ));
+        }
         Ok(self.store().utf8byte(self.absolute_cursor(abscursor))? - beginbyte)
     }
 
@@ -406,6 +412,12 @@ where
             .store()
             .subslice_utf8_offset(self.text())
             .expect("subslice should succeed");
+        if bytecursor > self.text().len() {
+            return Err(StamError::CursorOutOfBounds(
+                Cursor::BeginAligned(bytecursor),
+                "utf8byte_to_charpos(): byte position is beyond the end of the text selection (cursor value is a utf-8 byte position in this context)",
+            ));
+        }
         Ok(self
             .store()
             .utf8byte_to_charpos(beginbyte + bytecursor)?
@@ -610,6 +622,12 @@ where
             .store()
             .subslice_utf8_offset(self.text())
             .expect("subslice should succeed");
+        if abscursor > self.textlen() {
+            return Err(StamError::CursorOutOfBounds(
+                Cursor::BeginAligned(abscursor),
+                "utf8byte(): cursor is beyond the end of the text selection",
+            ));
+        }
         Ok(self.store().utf8byte(self.absolute_cursor(abscursor))? - beginbyte)
     }
 
@@ -621,6 +639,12 @@ where
             .store()
             .subslice_utf8_offset(self.text())
             .expect("subslice should succeed");
+        if bytecursor > self.text().len() {
+            return Err(StamError::CursorOutOfBounds(
+                Cursor::BeginAligned(bytecursor),
+                "utf8byte_to_charpos(): byte position is beyond the end of the text selection (cursor value is a utf-8 byte position in this context)",
+            ));
+        }
         Ok(self
             .store()
             .utf8byte_to_charpos(beginbyte + bytecursor)?
